@@ -446,6 +446,21 @@ def part_weights(ctx, chosen, rng):
             if not w.max() <= 1 + 1e-12:
                 ctx.violation("cal_max_weight:weight_above_one", {"m0": m0, "masses": ms, "largest_weight": float(w.max()), "n": len(ms), "start": "pinned at u=0.97" if rep == 0 else "random"})
     ctx.part("cal_max_weight", largest_weight_after=worst)
+    # a user mass proposal that is the default one (uniform over the range of the first inner mass, installed at index 0)
+    # must not change any weight: the importance factors belong to the built-in proposals of the OTHER masses
+    from tf_pwa.phasespace import UniformGenerator
+
+    for m0, ms in confs[1:4]:
+        g = PhaseSpaceGenerator(m0, ms)
+        prop = g.generate_mass(2000)
+        w_default = np.asarray(g.get_weight(prop))
+        g.mass_generator[0] = UniformGenerator(*g.mass_range[0])
+        w_same = np.asarray(g.get_weight(prop))
+        ctx.count(len(w_same), distinct_key=("equiv_proposal", m0, len(ms)))
+        if w_default.shape != w_same.shape or not np.allclose(w_default, w_same, rtol=1e-12, atol=0):
+            ctx.violation("mass_generator:default_equivalent_proposal_changes_weight:n=%d" % len(ms), {"m0": m0, "masses": ms,
+                          "largest_ratio": float(np.max(w_same / np.where(w_default > 0, w_default, 1)))})
+    ctx.assume("user-supplied mass proposals other than the default-equivalent one at index 0 are outside C10's quantifier (a full-range proposal for a later mass produces unordered masses: weights above one on the unchanged tree)")
     # a chain with a two-body node
     from tf_pwa.phasespace import ChainGenerator
 
